@@ -124,6 +124,24 @@ def _is_method_call_on_first(node: ast.Call):
     return True
 
 
+def _is_simple_lambda_call(node: ast.Call) -> bool:
+    """
+    Determine if this is a call of a lambda whose parameters are bound one-to-one
+    by plain positional arguments, like (lambda x, y: x+y)(a, b).
+    """
+    if type(node.func) is not ast.Lambda:
+        return False
+
+    l_args = node.func.args
+    if l_args.posonlyargs or l_args.vararg or l_args.kwonlyargs or l_args.kwarg or l_args.defaults:
+        return False
+
+    if len(node.keywords) > 0 or any(isinstance(a, ast.Starred) for a in node.args):
+        return False
+
+    return len(l_args.args) == len(node.args)
+
+
 class simplify_chained_calls(FuncADLNodeTransformer):
     """
     In order to cleanly evaluate things like tuples (which should not show up at the back end),
@@ -424,7 +442,7 @@ class simplify_chained_calls(FuncADLNodeTransformer):
 
         Also, if this is a First() call, then move the call inside it.
         """
-        if type(call_node.func) is ast.Lambda:
+        if _is_simple_lambda_call(call_node):
             arg_asts = [self.visit(a) for a in call_node.args]
             with stack_frame(self._arg_stack):
                 for a_name, arg in zip(call_node.func.args.args, arg_asts):
